@@ -50,9 +50,10 @@ struct Single {
     reply: String,
 }
 
-fn keys_for(shards: usize) -> (String, String) {
+/// K is the first candidate whose home (generic route) is shard `home % shards`, Q the first candidate on another shard
+fn keys_for(shards: usize, home: usize) -> (String, String) {
     let cands: Vec<String> = (0..1000).map(|i| format!("key{i}")).collect();
-    let k = cands[0].clone();
+    let k = if home == usize::MAX { cands[0].clone() } else { cands.iter().find(|c| hash_key(c, shards) == home % shards).cloned().unwrap() };
     let q = cands
         .iter()
         .find(|c| **c != k && (shards == 1 || hash_key(c, shards) != hash_key(&k, shards)))
@@ -219,6 +220,8 @@ struct Scenario {
     /// true: the scheduler may also let 2 s of (virtual) time pass once, at any point - a shard that is not
     /// polled for that long is a stalled shard; any timer the code under test arms can then fire
     stall: bool,
+    /// home shard of key K (usize::MAX: whatever shard "key0" lives on)
+    home: usize,
 }
 
 enum RunResult {
@@ -233,7 +236,7 @@ fn run_once_conn(sc: &Scenario, ch: &mut Chooser) -> (RunResult, Vec<String>) {
     use vh::connsys::{decode_replies, ConnWorld};
     polex::with_runtime(|rt| {
         rt.block_on(async {
-            let (k, q) = keys_for(sc.shards);
+            let (k, q) = keys_for(sc.shards, sc.home);
             let mut w = ConnWorld::new(sc.shards);
             let mut streams = Vec::new();
             let mut progs: Vec<Vec<Argv>> = Vec::new();
@@ -313,7 +316,7 @@ fn run_once(sc: &Scenario, ch: &mut Chooser) -> (RunResult, Vec<String>) {
     }
     polex::with_runtime(|rt| {
         rt.block_on(async {
-            let (k, q) = keys_for(sc.shards);
+            let (k, q) = keys_for(sc.shards, sc.home);
             let mut node = Node::new(sc.shards, VerifTime::new(1_000_000));
             if sc.stall {
                 node.sched.advance_left = 1;
@@ -375,7 +378,7 @@ fn paths_of(sc: &Scenario) -> String {
 }
 
 fn scenario_json(sc: &Scenario, schedule: &[u32]) -> serde_json::Value {
-    json!({"shards": sc.shards, "conn": sc.conn, "stall": sc.stall, "programs": sc.programs.iter().map(|p| p.iter().map(|o| OPS[*o]).collect::<Vec<_>>()).collect::<Vec<_>>(), "schedule": schedule})
+    json!({"shards": sc.shards, "conn": sc.conn, "stall": sc.stall, "home": if sc.home == usize::MAX { -1 } else { sc.home as i64 }, "programs": sc.programs.iter().map(|p| p.iter().map(|o| OPS[*o]).collect::<Vec<_>>()).collect::<Vec<_>>(), "schedule": schedule})
 }
 
 /// All multisets of `clients` programs of length `len` over `alphabet` (clients are symmetric).
@@ -387,7 +390,7 @@ fn scenarios(shards: usize, clients: usize, len: usize, alphabet: &[usize], conn
     let mut out = Vec::new();
     fn rec(programs: &[Vec<usize>], clients: usize, start: usize, cur: &mut Vec<Vec<usize>>, out: &mut Vec<Scenario>, shards: usize) {
         if cur.len() == clients {
-            out.push(Scenario { shards, programs: cur.clone(), conn: false, stall: false });
+            out.push(Scenario { shards, programs: cur.clone(), conn: false, stall: false, home: usize::MAX });
             return;
         }
         for i in start..programs.len() {
@@ -416,7 +419,8 @@ fn main() {
             .iter()
             .map(|p| p.as_array().unwrap().iter().map(|o| OPS.iter().position(|x| *x == o.as_str().unwrap()).expect("op in alphabet")).collect())
             .collect();
-        let sc = Scenario { shards: r["shards"].as_u64().unwrap() as usize, programs, conn: r["conn"].as_bool().unwrap_or(false), stall: r["stall"].as_bool().unwrap_or(false) };
+        let sc = Scenario { shards: r["shards"].as_u64().unwrap() as usize, programs, conn: r["conn"].as_bool().unwrap_or(false), stall: r["stall"].as_bool().unwrap_or(false),
+            home: r["home"].as_i64().filter(|h| *h >= 0).map(|h| h as usize).unwrap_or(usize::MAX) };
         let schedule: Vec<u32> = r["schedule"].as_array().unwrap().iter().map(|x| x.as_u64().unwrap() as u32).collect();
         let mut ch = polex::replay_prefix(&schedule);
         let (res, trace) = run_once(&sc, &mut ch);
@@ -473,6 +477,11 @@ fn main() {
         ("stall: 2clients x 2ops on the pooled/fast paths, one 2 s pause of the clock anywhere, 2 shards", 2, 2, 2, vec![5, 6, 3, 14], NONE, NONE),
         ("CONN: 2 connections x 2 pipelined commands, 2 shards", 2, 2, 2, conn_ops.clone(), NONE, NONE),
         ("CONN: 3 connections x 1 command, 1 shard", 1, 3, 1, conn_ops.clone(), NONE, NONE),
+        // shard counts that are not a power of two, with the shared key homed on every shard in turn: the routes taken by the
+        // fast / pooled / batched paths and by the generic path must agree for every key, not only for the key the other groups use
+        ("every home: 2clients x 2ops single-key paths, 3 shards, K homed on each shard", 3, 2, 2, vec![1, 4, 5, 6, 9], NONE, NONE),
+        ("every home: 2clients x 1op all paths, 5 shards, K homed on each shard", 5, 2, 1, all.clone(), NONE, NONE),
+        ("every home: CONN 2 connections x 2 pipelined commands, 3 shards, K homed on each shard", 3, 2, 2, vec![0, 1, 9], NONE, NONE),
     ];
     if thorough {
         groups.push(("3clients x 1op, 1 shard", 1, 3, 1, all.clone(), NONE, NONE));
@@ -488,11 +497,14 @@ fn main() {
     let mut exhaustive = true;
     let mut samples = Vec::new();
     for (label, shards, clients, len, alpha, bound, delay_cap) in groups {
-        let mut scs = scenarios(shards, clients, len, &alpha, label.starts_with("CONN"));
+        let mut scs = scenarios(shards, clients, len, &alpha, label.contains("CONN"));
         if label.starts_with("stall") {
             for s in scs.iter_mut() {
                 s.stall = true;
             }
+        }
+        if label.starts_with("every home") {
+            scs = (0..shards).flat_map(|h| scs.iter().cloned().map(move |mut s| { s.home = h; s })).collect();
         }
         let deadline = Instant::now() + per_group;
         // iterative delay bounding: explore everything with <= d non-default picks at blocked points,
